@@ -72,6 +72,12 @@ def cases(seed, tier):
                         [{'clause': prng.choice(['on-success',
                                                  'on-complete']),
                           'to': cmd, 'guard': None, 'form': 'list'}])]}
+        if i % 3 == 1 and i % 4 != 2 and prng.random() < 0.6:
+            # with-items over sub-workflows in a tree (see below)
+            subs = [T for T in P['tasks'] if T.get('workflow') and
+                    not T.get('policies')]
+            if subs:
+                prng.choice(subs)['with_items'] = 'i in <% [0, 1] %>'
         if i % 5 == 0:
             # retry / wait policies on some tasks
             for T in P['tasks']:
@@ -86,7 +92,15 @@ def cases(seed, tier):
             # running and - with a concurrency limit - some not started)
             plain = [T for Q in gdirect.all_programs(P) for T in Q['tasks']
                      if not T.get('workflow') and not T.get('policies')]
-            if plain:
+            # ... or a with-items task over sub-workflows (a pause that
+            # starts in one of the item workflows reaches the parent and,
+            # from there, the sibling item workflows)
+            subs = [T for T in P['tasks'] if T.get('workflow') and
+                    not T.get('policies')]
+            if subs and prng.random() < 0.6:
+                T = prng.choice(subs)
+                T['with_items'] = 'i in <% [0, 1] %>'
+            elif plain:
                 T = prng.choice(plain)
                 T['with_items'] = 'i in <% [0, 1, 2, 3] %>'
                 T['async'] = prng.random() < 0.7
@@ -134,6 +148,42 @@ def _pause_op(state, target_kind='root', brng=None):
         state['tasks_before'] = sorted(
             (t['name'], t['state']) for t in w.rec.rows['task'].values())
         state['holder'] = w.op_pause(target['id'])
+        prev = w.on_boundary
+
+        def at_ack(w2):
+            # When a unit puts a task (and its execution) to PAUSED - the
+            # pause of one item workflow reaching the parent - every
+            # sub-workflow of that task that was RUNNING before the unit
+            # is paused by the same unit: "the workflow and its running
+            # sub-workflows are PAUSED".  (Sub-workflows that only start
+            # later are not judged: tasks created before a pause may still
+            # start.)
+            if prev:
+                prev(w2)
+            rows = w2.rec.rows
+            now_t = {t['id']: t['state'] for t in rows['task'].values()}
+            now_w = {x['id']: x['state'] for x in rows['wf'].values()}
+            old_t = state.get('prev_t') or {}
+            old_w = state.get('prev_w') or {}
+            if old_t:
+                state['pause_cascade_evals'] = \
+                    state.get('pause_cascade_evals', 0) + 1
+            for x in rows['wf'].values():
+                tid = x.get('task_execution_id')
+                pt = rows['task'].get(tid or '')
+                if not pt or not old_t:
+                    continue
+                par = rows['wf'].get(pt['workflow_execution_id'])
+                if pt['state'] == 'PAUSED' and \
+                        old_t.get(tid) not in (None, 'PAUSED') and \
+                        par is not None and par['state'] == 'PAUSED' and \
+                        old_w.get(x['id']) == 'RUNNING' and \
+                        x['state'] == 'RUNNING':
+                    state.setdefault('running_below_paused_at_ack',
+                                     []).append((x['workflow_name'],
+                                                 pt['name']))
+            state['prev_t'], state['prev_w'] = now_t, now_w
+        w.on_boundary = at_ack
     return op
 
 
@@ -160,6 +210,16 @@ def _resume_phase(state):
                         if x['state'] not in ('PAUSED', 'SUCCESS', 'ERROR',
                                               'CANCELLED'):
                             bad.append((x['workflow_name'], x['state']))
+        # ... and so are the sub-workflows of every execution above the
+        # target that the pause has put to PAUSED (the siblings of a paused
+        # item workflow)
+        for x in rows['wf'].values():
+            par_t = rows['task'].get(x.get('task_execution_id') or '')
+            par = par_t and rows['wf'].get(par_t['workflow_execution_id'])
+            if par is not None and par['state'] == 'PAUSED' and \
+                    x['state'] in ('RUNNING', 'IDLE') and \
+                    (x['workflow_name'], x['state']) not in bad:
+                bad.append((x['workflow_name'], x['state']))
         state['subs_not_paused'] = bad
         # pausing a sub-workflow pauses its ancestors: resume from the root
         state['resume'] = w.op_resume(state['root'])
@@ -234,6 +294,13 @@ def run_case(case):
                     'msg': 'pause acknowledged but execution is %s when '
                            'everything in flight has drained' %
                            state.get('state_at_resume')})
+            if state.get('running_below_paused_at_ack'):
+                res['violations'].append({
+                    'prop': 'C10', 'monitor': 'pause-ack',
+                    'mech': 'sub-running-below-paused-task', 'boundary': b,
+                    'msg': 'pause acknowledged: sub-workflows %s are RUNNING '
+                           'below a PAUSED task of a PAUSED execution' %
+                           state['running_below_paused_at_ack']})
             if state.get('subs_not_paused'):
                 res['violations'].append({
                     'prop': 'C10', 'monitor': 'pause-ack',
